@@ -137,6 +137,9 @@ def struct_ops(p, classes=("D", "X"), with_bad=True, with_vertex=True):
         yield "edge D V1 V0 x=7 la=1"
         yield "edge D V0 V1 la=3"
         yield "edge U V1 V1 la=2"
+        if "X" in classes:
+            yield "edge X V0 V1 la=1"        # a link of an unknown class carrying a data field named `directed`
+            yield "edge X V1 V0 la=3"
     yield "nlink ."
     yield "nlink V0"
     yield "nlink V0,V0"
